@@ -187,9 +187,10 @@ var propertyConfigs = map[string]*propertyConfig{
 		Explain: "Abstract contracts on collective key switching to a secret-shared key: GenShare = c1*(s_in - s_out) + one fresh draw of the smudging distribution; AggregateShares = + (error on level mismatch); KeySwitch = (c0 + sum shares, c1); " +
 			"plus the copy contracts that keep the smudging sampler bound to the stored noise distribution in ShallowCopy; " +
 			"plus ShareToEncProtocol.GetEncryption (mpbgv, mpckks): the output is (aggregate, crp) and each component takes the level of its source, whatever level the receiver had (Poly.Copy is ASSUMED to resize its receiver to the source's level); " +
-			"plus the metadata of the masked transform / refresh (Transform of mpbgv and mpckks; transform nil, given, and refresh in place): on success the output records the input's flags and, for mpbgv, the input's scale (finding F38), for mpckks the default scale of the output parameters (to which the payload was rescaled) and IsBatched = transform.Encode; aggregated refresh shares carry the shares' metadata and public-key-switching shares of different levels are refused.",
+			"plus the metadata of the masked transform / refresh (Transform of mpbgv and mpckks; transform nil, given, and refresh in place): on success the output records the input's flags and, for mpbgv, the input's scale (finding F38), for mpckks the default scale of the output parameters (to which the payload was rescaled) and IsBatched = transform.Encode; aggregated refresh shares carry the shares' metadata and public-key-switching shares of different levels are refused; " +
+			"plus the share conversions of mpbgv: EncToShare.GenShare = the key-switch share to the ZERO key MINUS the lift of the additive share the party keeps (the same mask, drawn once); GetShare = the reduction to R_t of (aggregate + c0) [+ the party's own share]; ShareToEnc.GenShare = the key-switch share FROM the zero key on the common reference polynomial PLUS the lift of the additive share; the refresh share uses ONE mask for both halves; and the payload of a refresh is lift(reduce(aggregate + c0)) + the aggregated re-encryption shares, with the reference polynomial as second component (lift / reduction between R_t and R_Q NAMED uf_lift / uf_q2t).",
 		Assumptions: append(append([]string{}, engineBAssumptions...), "masked transform: the encoder calls, the decryption share of the mask, SetCoefficientsBigint and NTTSparseAndMontgomery are TRUSTED abstract contracts (write their output only); the user's callback is ASSUMED to act on the values it is given (clause `callback`)",
-			"NOT decided: public-key switching shares, encryption-to-shares, the PAYLOAD of refresh and masked transform (encoder semantics / float bounds), the flooding noise magnitude (floating point)"),
+			"NOT decided: public-key switching shares, the share conversions of mpckks (big-float encoder), the payload of a masked transform WITH a transform (encoder semantics), what the lift / reduction between R_t and R_Q compute, the flooding noise magnitude (floating point)"),
 		Trusted: stdTrusted, Simple: copySimple("C16"),
 	},
 	"C19": {
